@@ -86,6 +86,7 @@ type PathResult struct {
 	Findings     []Finding
 	AssertsOK    map[string]int // label -> discharged count (unsat)
 	AssertsSeen  map[string]int
+	Trivial      int // obligations that folded to true by term identity
 	Unknown      []string
 	Assumes      int
 	Observes     map[string]string
@@ -270,6 +271,10 @@ func (i *interpreter) concretize(t *smt.Term, what string) *big.Int {
 	r.stats.feasQueries++
 	r.solver.Push()
 	res := r.solver.Check()
+	if r.solver.Dead() {
+		r.recoverSolver()
+		r.abort("unknown", "solver died while concretising %s", what)
+	}
 	if res != smt.Sat {
 		r.solver.Pop()
 		if res == smt.Unsat {
@@ -338,16 +343,46 @@ func (r *run) input(name string, s smt.Sort, lo, hi *big.Int) *smt.Term {
 // model returns the values of the named inputs under the current PC plus extra.
 func (r *run) model(extra ...*smt.Term) (map[string]string, smt.Result) {
 	r.stats.feasQueries++
+	// Prefer counterexamples in which float operations are exact: they are the
+	// ones that reproduce natively (the float model is a relaxation).
+	var hints []*smt.Term
+	seen := map[int]bool{}
+	for _, t := range append(append([]*smt.Term{}, r.pc...), extra...) {
+		for _, w := range t.Witnesses() {
+			if w.Hint != nil && !seen[w.ID] {
+				seen[w.ID] = true
+				hints = append(hints, w.Hint)
+			}
+		}
+	}
+	if len(hints) > 0 {
+		if m, res := r.modelWith(append(append([]*smt.Term{}, extra...), hints...)); res == smt.Sat {
+			return m, res
+		}
+	}
+	return r.modelWith(extra)
+}
+
+func (r *run) modelWith(extra []*smt.Term) (map[string]string, smt.Result) {
 	r.solver.Push()
-	defer r.solver.Pop()
 	for _, e := range extra {
 		r.solver.Assert(e)
 	}
 	res := r.solver.Check()
+	if r.solver.Dead() {
+		r.recoverSolver()
+		return nil, smt.Unknown
+	}
 	if res != smt.Sat {
+		r.solver.Pop()
 		return nil, res
 	}
 	vals, err := r.solver.Values(r.inputs)
+	if r.solver.Dead() {
+		r.recoverSolver()
+		return nil, smt.Unknown
+	}
+	r.solver.Pop()
 	if err != nil {
 		return nil, smt.Unknown
 	}
@@ -379,6 +414,7 @@ func (i *interpreter) obligation(cond *smt.Term, label string) {
 	r.known = nil
 	if cond.IsConst() && cond.B {
 		r.res.AssertsOK[label]++
+		r.res.Trivial++
 		return
 	}
 	neg := ctx.Not(cond)
